@@ -1,5 +1,6 @@
 SPECIFICATION Spec
 CONSTANTS
+  Dim = 2
   MaxNodes = 2
   MinNodes = 2
   Widths = {3}
@@ -12,11 +13,16 @@ CONSTANTS
   AllowPool = FALSE
   AllowAdd = FALSE
   AllowDw = FALSE
+  AllowReuse = FALSE
   TupMode = "pc1"
   WType = "pc"
   SelMode = "rot"
+  MaxHist = 0
+  Walk = "fixed"
   Lin = "fixed"
-  GuardF40 = TRUE
+  GuardF40 = FALSE
   GuardF05 = FALSE
+  GuardReuse = TRUE
 INVARIANT InvCostExact
 INVARIANT InvSpecKeys
+INVARIANT InvPerInvocation
